@@ -17,3 +17,6 @@ Definition list_len_checked : option bool := (Some true).
 Definition page_copy_len_checked : option bool := (Some true).
 (* reader.rs: chunk range checked against the file size before prepare_for_chunk, and Ok(0) reads are errors *)
 Definition chunk_range_checked : option bool := (Some true).
+(* page_reader.rs prepare_data_page_v2 (compressed): rep + def level byte lengths <= compressed_page_size / <= uncompressed_page_size *)
+Definition v2_levels_le_compressed : option bool := (Some true).
+Definition v2_levels_le_uncompressed : option bool := (Some true).
